@@ -63,9 +63,5 @@ Qed.
 Lemma domain1_ok : forallb (graph_ok [1; 2; 3]%nat [1]) domain1 = true.
 Proof. vm_compute. reflexivity. Qed.
 
-Lemma domain2_ok : forallb (graph_ok [1; 2]%nat [1; 2]) domain2 = true.
+Lemma domains_size : Z.of_nat (length domain1) = 18000.
 Proof. vm_compute. reflexivity. Qed.
-
-Lemma domains_size :
-  Z.of_nat (length domain1) = 18000 /\ Z.of_nat (length domain2) = 32400.
-Proof. vm_compute. split; reflexivity. Qed.
